@@ -60,8 +60,9 @@ namespace RecInt
         ruint(const ruint<K-1>& rl) : Low(rl) {}
         ruint(const double b) : Low((b < 0)? -b : b) { if (b < 0) *this = -*this; }
         template <typename T, __RECINT_IS_UNSIGNED(T, int) = 0> ruint(const T b) : Low(b) {}
-        template <typename T, __RECINT_IS_SIGNED(T, int) = 0>   ruint(const T b) : Low((b < 0)? -b : b)
-        { if (b < 0) *this = -*this; }
+        // b < 0: build -(b+1) (no overflow for the minimum of T) and complement it: ~(-(b+1)) = b
+        template <typename T, __RECINT_IS_SIGNED(T, int) = 0>   ruint(const T b) : Low((b < 0)? -(b + 1) : b)
+        { if (b < 0) *this = ~*this; }
         template <typename T, __RECINT_IS_NOT_FUNDAMENTAL(T, int) = 0> ruint(const T& b)
         { *this = b.operator ruint<K>(); } // Fix for Givaro::Integer
 
